@@ -107,19 +107,20 @@ static Base make_base(Case &c) {
 	B.desc = d; return B;
 }
 
-enum Dec { D_ST_CONCAT, D_ST_SINGLE, D_AUTO_CONCAT, D_MT_CONCAT, D_N };
-static const char *dec_names[] = {"st+concat", "st", "auto+concat", "mt+concat"};
+enum Dec { D_ST_CONCAT, D_ST_SINGLE, D_AUTO_CONCAT, D_MT_CONCAT, D_MT_FAILFAST, D_ST_BYTEWISE, D_N };
+static const char *dec_names[] = {"st+concat", "st", "auto+concat", "mt+concat", "mt+concat+failfast", "st+concat fed one byte at a time"};
 
 static drv::Result decode(const Base &B, int dec, const uint8_t *p, size_t n) {
 	lzma_stream s = LZMA_STREAM_INIT; s.allocator = AL(); lzma_ret r; drv::Opts o; o.out_cap = 1u << 20;
 	uint32_t fl = (dec == D_ST_SINGLE) ? 0 : LZMA_CONCATENATED;
+	drv::Schedule sch; if (dec == D_ST_BYTEWISE) { sch.tail_in = 1; sch.tail_out = 1u << 20; }
 	if (dec == D_AUTO_CONCAT) r = lzma_auto_decoder(&s, UINT64_MAX, fl);
 	else if (B.kind == K_LZMA) r = lzma_alone_decoder(&s, UINT64_MAX);
 	else if (B.kind == K_LZ) r = lzma_lzip_decoder(&s, UINT64_MAX, fl);
-	else if (dec == D_MT_CONCAT) { lzma_mt mt; memset(&mt, 0, sizeof mt); mt.threads = 2; mt.flags = fl; mt.memlimit_threading = UINT64_MAX; mt.memlimit_stop = UINT64_MAX; r = lzma_stream_decoder_mt(&s, &mt); o.idle_limit = 1u << 20; }
+	else if (dec == D_MT_CONCAT || dec == D_MT_FAILFAST) { lzma_mt mt; memset(&mt, 0, sizeof mt); mt.threads = 2; mt.flags = fl | (dec == D_MT_FAILFAST ? LZMA_FAIL_FAST : 0); mt.memlimit_threading = UINT64_MAX; mt.memlimit_stop = UINT64_MAX; r = lzma_stream_decoder_mt(&s, &mt); o.idle_limit = 1u << 20; }
 	else r = lzma_stream_decoder(&s, UINT64_MAX, fl);
 	if (r != LZMA_OK) harness_bug("decoder init %d", (int)r);
-	drv::Result R = drv::run(&s, p, n, drv::Schedule(), o); lzma_end(&s); return R;
+	drv::Result R = drv::run(&s, p, n, sch, o); lzma_end(&s); return R;
 }
 
 struct Judge { const Base &B; uint64_t evals = 0, flips = 0, truncs = 0, success_same = 0, errors = 0; std::map<std::string, uint64_t> field_hits; };
@@ -141,7 +142,8 @@ static void check_one(Judge &J, const std::vector<uint8_t> &dam, const char *wha
 	const Base &B = J.B;
 	for (int dec = 0; dec < D_N; ++dec) {
 		if (only_dec >= 0 && dec != only_dec) continue;
-		if (dec == D_MT_CONCAT && (B.kind != K_XZ || !mt_too)) continue;
+		if ((dec == D_MT_CONCAT || dec == D_MT_FAILFAST || dec == D_ST_BYTEWISE) && !mt_too) continue;   // the costlier settings run on a subset
+		if ((dec == D_MT_CONCAT || dec == D_MT_FAILFAST) && B.kind != K_XZ) continue;
 		if (B.kind == K_LZMA && dec == D_ST_SINGLE) continue; // same decoder as D_ST_CONCAT for .lzma
 		drv::Result R = decode(B, dec, dam.data(), dam.size()); ++J.evals;
 		if (R.ret == LZMA_MEM_ERROR || R.capped) { count("environment_or_capped"); continue; }
@@ -185,7 +187,7 @@ extern "C" int LLVMFuzzerTestOneInput(const uint8_t *data, size_t size) {
 	set_desc(B.desc);
 	Judge J{B};
 	// sanity: the undamaged file decodes to the plaintext with every decoder
-	for (int dec = 0; dec < D_N; ++dec) { if (dec == D_MT_CONCAT && B.kind != K_XZ) continue; drv::Result R = decode(B, dec, B.bytes.data(), B.bytes.size());
+	for (int dec = 0; dec < D_N; ++dec) { if ((dec == D_MT_CONCAT || dec == D_MT_FAILFAST) && B.kind != K_XZ) continue; drv::Result R = decode(B, dec, B.bytes.data(), B.bytes.size());
 		bool single = dec == D_ST_SINGLE; size_t want = single ? B.plain_end[0] : B.plain.size();
 		if (R.ret != LZMA_STREAM_END || R.out.size() != want || (want && memcmp(R.out.data(), B.plain.data(), want))) violation("C01:roundtrip", "%s: undamaged file: decoder %s gives %s / %zu bytes", B.desc.c_str(), dec_names[dec], drv::retname(R.ret), R.out.size()); }
 	// ---- exhaustive single-bit flips
@@ -198,6 +200,18 @@ extern "C" int LLVMFuzzerTestOneInput(const uint8_t *data, size_t size) {
 	}
 	// ---- exhaustive truncations
 	for (size_t t = 0; t < B.bytes.size(); ++t) { std::vector<uint8_t> tr(B.bytes.begin(), B.bytes.begin() + t); check_one(J, tr, "truncate", t, B.bytes.size(), false, true); ++J.truncs; }
+	// ---- exhaustive Stream Padding lengths 0..9 at every padding position of an .xz base file: valid iff a multiple of 4
+	uint64_t padvars = 0;
+	if (B.kind == K_XZ) for (size_t si = 0; si < B.stream_end.size(); ++si) {
+		size_t lo = B.stream_end[si], hi = lo; while (hi < B.bytes.size() && B.bytes[hi] == 0) ++hi;
+		for (size_t pl = 0; pl <= 9; ++pl) { if (pl == hi - lo) continue;
+			std::vector<uint8_t> m(B.bytes.begin(), B.bytes.begin() + lo); m.insert(m.end(), pl, 0); m.insert(m.end(), B.bytes.begin() + hi, B.bytes.end()); ++padvars;
+			for (int dec : {D_ST_CONCAT, D_ST_BYTEWISE, D_AUTO_CONCAT, D_MT_CONCAT}) { drv::Result R = decode(B, dec, m.data(), m.size()); ++J.evals;
+				if (R.ret == LZMA_MEM_ERROR || R.capped) continue;
+				bool ok = R.ret == LZMA_STREAM_END;
+				if ((pl & 3) && ok) violation("C05:stream-padding-length-accepted", "%s: Stream Padding of %zu bytes after Stream %zu: decoder %s reports LZMA_STREAM_END", B.desc.c_str(), pl, si + 1, dec_names[dec]);
+				if (!(pl & 3) && (!ok || R.out != B.plain)) violation("C03:valid-rejected", "%s: Stream Padding of %zu bytes after Stream %zu is valid but decoder %s gives %s / %zu bytes", B.desc.c_str(), pl, si + 1, dec_names[dec], drv::retname(R.ret), R.out.size()); } } }
+	count("stream_padding_length_variants", padvars);
 	// ---- case-chosen multi-byte damage
 	unsigned extra = 4 + c.u(28);
 	for (unsigned e = 0; e < extra; ++e) {
@@ -229,7 +243,7 @@ extern "C" int LLVMFuzzerTestOneInput(const uint8_t *data, size_t size) {
 		uint32_t crc = ref::crc32(m.data() + cr.begin, cr.end - cr.begin); for (int k = 0; k < 4; ++k) m[cr.crc_at + k] = (uint8_t)(crc >> (8 * k));
 		ref::XzOpts xo; xo.concatenated = true; xo.out_limit = 1u << 20; ref::XzResult X = ref::xz_decode(m.data(), m.size(), xo); ++crcfix;
 		if (X.status == ref::RS_REF_UNSUPPORTED || X.status == ref::RS_TOO_BIG) continue;
-		for (int dec : {D_ST_CONCAT, D_AUTO_CONCAT, D_MT_CONCAT}) { if (dec == D_MT_CONCAT && (v & 1)) continue;
+		for (int dec : {D_ST_CONCAT, D_AUTO_CONCAT, D_MT_CONCAT, D_MT_FAILFAST, D_ST_BYTEWISE}) { if (dec >= D_MT_CONCAT && (v & 1)) continue;
 			drv::Result R = decode(B, dec, m.data(), m.size()); ++J.evals;
 			if (R.ret == LZMA_MEM_ERROR || R.capped) continue;
 			if (X.ok()) { ++crcfix_valid; if (R.ret != LZMA_STREAM_END || R.out != X.out) violation("C03:valid-rejected", "%s byte %zu -> %02x with CRC32 recomputed leaves a valid file (reference) but decoder %s gives %s / %zu bytes", B.desc.c_str(), i, nv, dec_names[dec], drv::retname(R.ret), R.out.size()); }
